@@ -187,6 +187,58 @@ var rDomainGetter = &Rule{
 		}
 		n := 0
 		reg := regionOf(fn)
+		// layerOK: v (a *withDomain) is a layer found at a position of the single-cause chain of the caller's error
+		var layerOK func(v ssa.Value, in *ssa.Function, d int) (bool, string)
+		layerOK = func(v ssa.Value, in *ssa.Function, d int) (bool, string) {
+			if d > 4 {
+				return false, "too deep"
+			}
+			if cst, ok := v.(*ssa.Const); ok && cst.IsNil() {
+				return true, "" // the "not found" companion of a false flag
+			}
+			if ph, ok := v.(*ssa.Phi); ok {
+				for _, e := range ph.Edges {
+					if ok, why := layerOK(e, in, d+1); !ok {
+						return false, why
+					}
+				}
+				return true, ""
+			}
+			src := v
+			if ex, ok := src.(*ssa.Extract); ok {
+				if call, isCall := ex.Tuple.(*ssa.Call); isCall {
+					// the lookup handed to a helper of the accessor: what the helper returns at that position
+					h := sx.Callee(call)
+					if h == nil || !reg.in[h] || h == fn {
+						return false, "the domain of a *withDomain obtained from " + sx.TrimMod(sx.CalleeName(call))
+					}
+					for _, r := range sx.Returns(h) {
+						if ex.Index < len(r.Results) {
+							if ok, why := layerOK(r.Results[ex.Index], h, d+1); !ok {
+								return false, why
+							}
+						}
+					}
+					return true, ""
+				}
+				if ex.Index == 0 {
+					src = ex.Tuple
+				}
+			}
+			if ta, ok := src.(*ssa.TypeAssert); ok {
+				start := in.Params[0]
+				if in != fn {
+					if q := reg.paramFor(in, fn.Params[0]); q != nil {
+						start = q
+					}
+				}
+				if isChainPosition(ta.X, start, map[ssa.Value]bool{}, 0) {
+					return true, ""
+				}
+				return false, "the domain of a *withDomain that was not found by walking the chain with UnwrapOnce (" + describeVal(ta.X) + ")"
+			}
+			return false, "the domain of a *withDomain obtained through " + describeVal(v) + " (not a position of the single-cause chain)"
+		}
 		var okVal func(v ssa.Value, in *ssa.Function, d int) (bool, string)
 		okVal = func(v ssa.Value, in *ssa.Function, d int) (bool, string) {
 			if d > 5 {
@@ -205,23 +257,10 @@ var rDomainGetter = &Rule{
 			case *ssa.UnOp:
 				fa, _ := x.X.(*ssa.FieldAddr)
 				if x.Op == token.MUL && fa != nil && isStructField(fa, wd, "domain") {
-					src := fa.X
-					if ex, ok := src.(*ssa.Extract); ok && ex.Index == 0 {
-						src = ex.Tuple
+					if ok, why := layerOK(fa.X, in, 0); !ok {
+						return false, why
 					}
-					if ta, ok := src.(*ssa.TypeAssert); ok {
-						start := in.Params[0]
-						if in != fn {
-							if q := reg.paramFor(in, fn.Params[0]); q != nil {
-								start = q
-							}
-						}
-						if isChainPosition(ta.X, start, map[ssa.Value]bool{}, 0) {
-							return true, ""
-						}
-						return false, "the domain of a *withDomain that was not found by walking the chain with UnwrapOnce (" + describeVal(ta.X) + ")"
-					}
-					return false, "the domain of a *withDomain obtained through " + describeVal(fa.X) + " (not a position of the single-cause chain)"
+					return true, ""
 				}
 			case *ssa.Extract:
 				if call, ok := x.Tuple.(*ssa.Call); ok {
